@@ -2,13 +2,19 @@ package props
 
 import (
 	"encoding/json"
+	"fmt"
 	"math/rand"
 	"strings"
 	"time"
 
+	"github.com/trustbloc/sidetree-core-go/pkg/api/operation"
+	"github.com/trustbloc/sidetree-core-go/pkg/api/txn"
+	"github.com/trustbloc/sidetree-core-go/pkg/versions/1_0/txnprocessor"
+
 	"sidever/internal/ev"
 	"sidever/internal/pipe"
 	"sidever/internal/tlc"
+	"sidever/internal/wire"
 )
 
 type pipeCase struct {
@@ -42,7 +48,7 @@ func pipelineBehaviours(c *ev.Ctx, cfg string, num int, seed int64) [][]pipe.Ste
 }
 
 // pipelineDesign model-checks the pipeline design exhaustively (bounded).
-func pipelineDesign(c *ev.Ctx) {
+func pipelineDesign(c *ev.Ctx) *tlc.Result {
 	r, err := tlc.Run(tlc.Opts{SpecDir: specDir(), Module: "MC_Pipeline", Config: "MC_Pipeline_mc.cfg", WorkDir: c.Work, Timeout: 20 * time.Minute})
 	if err != nil {
 		ev.Fatal("TLC MC_Pipeline_mc: %v", err)
@@ -53,6 +59,7 @@ func pipelineDesign(c *ev.Ctx) {
 	c.Cov.States += r.Distinct
 	c.Cov.Transitions += r.Generated
 	c.Cov.CheckerCmd = r.Cmd
+	return r
 }
 
 // runPipelineBehaviours executes behaviours on the real pipeline and has TLC validate the recorded traces.
@@ -169,7 +176,8 @@ func hasFaultOrTwoTxns(h []pipe.Step) bool {
 
 // C15: transactions store one stamped operation per DID, all-or-nothing; refused intake leaves no trace.
 func C15(c *ev.Ctx) {
-	pipelineDesign(c)
+	design := pipelineDesign(c)
+	stampInIsolation(c, design.Tagged["STAMP"])
 	n := 120
 	if c.Tier == "thorough" {
 		n = 3000
@@ -185,4 +193,74 @@ func C15(c *ev.Ctx) {
 	}
 	c.Cov.Rule = "TLC simulates Pipeline.tla (2 DIDs, <= 6 client submissions of create/update/recover/deactivate, queue-add failures, batch-write failures, garbage and duplicate-carrying ledger entries, unreadable / unstorable transactions, protocol upgrade, with and without unpublished store); each behaviour is executed on the fully wired real pipeline (consecutive Observe steps are delivered to the real Observer as one notification) and the recorded trace - replies, queue, unpublished store, every stored operation with time/number/version/canonical+equivalent reference stamps, Put calls per transaction, resolution views - is validated by TLC against the specification. Non-trivial: >= 1 fault or >= 2 transactions."
 	c.Finish("model_checking")
+}
+
+type fixedProvider struct{ ops []*operation.AnchoredOperation }
+
+func (f fixedProvider) GetTxnOperations(*txn.SidetreeTxn) ([]*operation.AnchoredOperation, error) {
+	return f.ops, nil
+}
+
+// stampInIsolation: the real TxnProcessor, fed by a provider stub (an environment interface), must stamp every
+// stored operation with exactly the transaction's time, number, protocol version and canonical / equivalent
+// references - for every combination of present / absent reference fields and stale values on the operation.
+func stampInIsolation(c *ev.Ctx, tagged []json.RawMessage) {
+	if len(tagged) == 0 {
+		ev.Fatal("no STAMP cases emitted")
+	}
+	var cases []struct {
+		C struct {
+			Canon bool   `json:"canon"`
+			Neq   int    `json:"neq"`
+			Stale bool   `json:"stale"`
+			T     uint64 `json:"t"`
+			N     uint64 `json:"n"`
+			Ver   uint64 `json:"ver"`
+		} `json:"c"`
+		Out struct {
+			Ref string `json:"ref"`
+			Neq int    `json:"neq"`
+			T   uint64 `json:"t"`
+			N   uint64 `json:"n"`
+			Ver uint64 `json:"ver"`
+		} `json:"out"`
+	}
+	if err := json.Unmarshal(tagged[0], &cases); err != nil {
+		ev.Fatal("STAMP cases: %v", err)
+	}
+	for _, cs := range cases {
+		op := &operation.AnchoredOperation{Type: operation.TypeUpdate, UniqueSuffix: "suffix-1", OperationRequest: []byte(`{}`)}
+		if cs.C.Stale {
+			op.CanonicalReference, op.EquivalentReferences = "stale", []string{"stale-eq"}
+			op.TransactionTime, op.TransactionNumber, op.ProtocolVersion = 99, 99, 99
+		}
+		t := txn.SidetreeTxn{TransactionTime: cs.C.T, TransactionNumber: cs.C.N, ProtocolVersion: cs.C.Ver, AnchorString: "1.x", Namespace: "did:sidetree"}
+		if cs.C.Canon {
+			t.CanonicalReference = "txn-canonical"
+		}
+		for i := 0; i < cs.C.Neq; i++ {
+			t.EquivalentReferences = append(t.EquivalentReferences, fmt.Sprintf("txn-eq-%d", i))
+		}
+		store := wire.NewOpStore()
+		tp := txnprocessor.New(&txnprocessor.Providers{OpStore: store, OperationProtocolProvider: fixedProvider{[]*operation.AnchoredOperation{op}}})
+		_, err := tp.Process(t)
+		c.Cov.Evaluations++
+		stored := store.All()
+		ok := err == nil && len(stored) == 1 && stored[0].CanonicalReference == cs.Out.Ref && len(stored[0].EquivalentReferences) == cs.Out.Neq &&
+			stored[0].TransactionTime == cs.Out.T && stored[0].TransactionNumber == cs.Out.N && stored[0].ProtocolVersion == cs.Out.Ver
+		if ok {
+			for i, e := range stored[0].EquivalentReferences {
+				if e != fmt.Sprintf("txn-eq-%d", i) {
+					ok = false
+				}
+			}
+		}
+		if !ok {
+			var got interface{}
+			if len(stored) > 0 {
+				got = stored[0]
+			}
+			c.Violation(fmt.Sprintf("stamp-differs-from-transaction:canon=%v:neq=%d:stale=%v", cs.C.Canon, cs.C.Neq, cs.C.Stale), map[string]interface{}{"transaction": t, "stored": got, "expected": cs.Out, "error": fmt.Sprint(err)})
+		}
+	}
 }
